@@ -11,7 +11,7 @@ from .. import docgen, e2e
 from ..keyenc import key, unkey
 from ..runner import Check
 from ..translate import headerflow, kwsites, versions
-from . import c19_hdr, c19_kw
+from . import c19_hdr, c19_imports, c19_kw, c19_sweep
 
 # ---------------------------------------------------------------- authored table (Python side, independent of
 # lean/Dcg/Model/Version.lean; the two are compared on every run). Minor version of Python 3 that first
@@ -25,7 +25,7 @@ PY_SINCE: dict[tuple[str, str], int] = {
     **{("typing", n): 10 for n in ("TypeAlias", "ParamSpec", "Concatenate", "TypeGuard")},
     **{("typing", n): 11 for n in ("NotRequired", "Required", "Self", "LiteralString", "Never", "Unpack")},
     ("typing", "override"): 12,
-    ("typing", "ReadOnly"): 13,
+    ("typing", "ReadOnly"): 13, ("typing", "TypeIs"): 13, ("typing", "NoDefault"): 13,
     ("__future__", "annotations"): 7,
     **{("collections.abc", n): 3 for n in ("Sequence", "Mapping", "Set", "Iterable", "Callable", "MutableMapping")},
     ("dataclasses", "dataclass"): 7, ("dataclasses", "field"): 7, ("dataclasses", "KW_ONLY"): 10,
@@ -223,7 +223,29 @@ def option_flags(opts: dict) -> dict:
     return {"union_operator_option": bool(opts.get("use_union_operator")), "keyword_only_option": bool(opts.get("keyword_only"))}
 
 
-def case(ck: Check, camp, kind: str, minor: int, doc, input_kind: str, opts: dict) -> None:
+def oracle_import(code: str, kind: str, minor: int) -> list[tuple[dict, str]]:
+    """when the target IS the running interpreter: really import the emitted module. Only an ImportError that names a
+    standard-library module counts (a name the target's library lacks); anything else that goes wrong while the module runs is
+    the subject of other properties."""
+    if minor != sys.version_info.minor or kind not in e2e.EXECUTABLE_KINDS:
+        return []
+    mod = None
+    try:
+        mod = e2e.load_module(code, kind)
+    except ImportError as ex:
+        if ex.name and is_stdlib(ex.name) and not isinstance(ex, ModuleNotFoundError):
+            return [({"oracle": "import_on_target", "module": ex.name, "target": f"3.{minor}", "mechanism": "too-new"},
+                     f"importing the emitted module on the running Python 3.{minor} (= the target): {type(ex).__name__}: {ex}")]
+    except BaseException as ex:  # noqa: BLE001
+        if isinstance(ex, (KeyboardInterrupt, SystemExit)):
+            raise
+    finally:
+        if mod is not None:
+            e2e.unload(mod)
+    return []
+
+
+def case(ck: Check, camp, kind: str, minor: int, doc, input_kind: str, opts: dict, precomputed=None, shrink: bool = True) -> None:
     camp.evaluations += 1
     camp.hit(f"kind:{kind}")
     camp.hit(f"target:3.{minor}")
@@ -231,7 +253,7 @@ def case(ck: Check, camp, kind: str, minor: int, doc, input_kind: str, opts: dic
     for o in opts:
         camp.hit(f"opt:{o}")
     o2 = c19_kw.prepared_opts(opts)
-    res = e2e.run_generate(doc, input_file_type=input_kind, model=kind, opts=o2, target=f"3.{minor}")
+    res = precomputed if precomputed is not None else e2e.run_generate(doc, input_file_type=input_kind, model=kind, opts=o2, target=f"3.{minor}")
     inp = {"kind": kind, "minor": minor, "input_kind": input_kind, "opts": opts, "doc": doc}
     if res.hang:
         camp.hit("hang(C01)")
@@ -242,6 +264,8 @@ def case(ck: Check, camp, kind: str, minor: int, doc, input_kind: str, opts: dic
     found = []
     for fn, code in res.files.items():
         found += oracle_module(code, kind, minor)
+    if len(res.files) == 1 and not any(c.get("oracle") in ("unparsable-in-every-version", "stdlib_name") for c, _ in found):
+        found += oracle_import(next(iter(res.files.values())), kind, minor)
     if any(c.get("oracle") == "unparsable-in-every-version" for c, _ in found):
         camp.hit("unparsable-in-every-version(C01)")
         return
@@ -250,7 +274,7 @@ def case(ck: Check, camp, kind: str, minor: int, doc, input_kind: str, opts: dic
         cls = {**cls, "input_kind": input_kind, "kind": kind, "via": "generate", **option_flags(opts)}
         if cls.get("oracle") == "kw_only_field":
             cls["schema_asks"] = c19_kw.schema_asks_field_kw_only(doc, opts)
-        if ck.fail(cls, inp, obs, f"only names and constructs available in Python 3.{minor}") and len(ck.failures) == 1 and not isinstance(doc, str):
+        if ck.fail(cls, inp, obs, f"only names and constructs available in Python 3.{minor}") and len(ck.failures) == 1 and not isinstance(doc, str) and shrink:
             small = c19_kw.shrink_doc(inp, cls)   # the replay file carries the first failure: make it a small document
             if small is not None:
                 ck.failures[0].input = small
@@ -263,6 +287,7 @@ def campaign_e2e(ck: Check, docs_per_pair: int, sdl_per_pair: int) -> None:
     camp = ck.campaign("e2e: (model kind, target) x seeded documents x options -> ast.parse(feature_version) + stdlib-name table + kw_only + PEP 604 at run time")
     t0 = time.time()
     rng = ck.rng.fork("e2e")
+    rng_rare = ck.rng.fork("e2e-rare-keywords")
     from datamodel_code_generator.format import PythonVersion, is_supported_in_black
 
     minors = []
@@ -273,8 +298,12 @@ def campaign_e2e(ck: Check, docs_per_pair: int, sdl_per_pair: int) -> None:
             camp.hit(f"target {v} not runnable with the installed black (table theorems only)")
     for kind in e2e.MODEL_KINDS:
         for minor in minors:
-            for _ in range(docs_per_pair):
-                case(ck, camp, kind, minor, docgen.json_schema(rng), "jsonschema", dict(rng.choice(OPTION_POOL)))
+            for j in range(docs_per_pair):
+                doc = docgen.json_schema(rng)
+                if j % 3 == 2:   # every third document carries rarely used Boolean keywords (readOnly, writeOnly, deprecated, nullable)
+                    doc = c19_sweep.decorate(rng_rare, doc)
+                    camp.hit("rare-boolean-keywords")
+                case(ck, camp, kind, minor, doc, "jsonschema", dict(rng.choice(OPTION_POOL)))
             for _ in range(sdl_per_pair):
                 case(ck, camp, kind, minor, docgen.graphql_sdl(rng), "graphql", dict(rng.choice(OPTION_POOL[:6])))
     camp.wall_s = time.time() - t0
@@ -500,6 +529,13 @@ def search(ck: Check) -> None:
 
 def search_dispatch(ck: Check) -> None:
     """the keyword-only search first when the site table (or its correspondence) is what broke, the general one otherwise"""
+    tables_first = any(t in ck.broken for t in ("tables_ok", "class_import_attrs_ok", "class_level_imports_available", "import_constants_classified",
+                                                "stdlib_imports_available", "notRequired_backport_iff")) or any(
+        "Lean tables" in d.campaign or "since-table" in d.campaign for d in ck.disagreements)
+    if tables_first:
+        c19_sweep.search_sweep(ck)
+        if ck.failures:
+            return
     kw_first = "kw_only_sites_guarded" in ck.broken or "keyword_only_needs_option_or_target" in ck.broken or any(
         "keyword-only" in d.campaign or "site table" in d.campaign for d in ck.disagreements)
     try:
@@ -513,6 +549,8 @@ def search_dispatch(ck: Check) -> None:
         hook(ck)
         if ck.failures:
             return
+    if not tables_first:
+        c19_sweep.search_sweep(ck)
 
 
 # ---------------------------------------------------------------- known findings / replay
@@ -567,6 +605,8 @@ def run(ck: Check) -> None:
     ]
     campaign_tables(ck)
     campaign_cli_guard(ck)
+    c19_imports.campaign_field_imports(ck, 12 if quick else 120)
+    c19_sweep.campaign_sweep(ck, quick)
     campaign_e2e(ck, 25 if quick else 250, 5 if quick else 50)
     campaign_sequences(ck, 3 if quick else 9, 2 if quick else 8)
     c19_hdr.campaign_headers(ck, 2 if quick else 12)
